@@ -214,8 +214,6 @@ def escape_literal_mapping(d):
     if not looks_like_path_spec(d):
         return d
     (k, v), = d.items()
-    if not k.startswith("path"):
-        raise Inexpressible(k)
     return {"\\" + k: v}
 
 
